@@ -22,6 +22,10 @@ PROBES = [((6, 10), 'build/packages/dep/src/dep_mod.gleam', 'a module of a direc
           ((9, 11), 'test/helper_t.gleam', 'test/helper_t.gleam is importable as helper_t')]
 
 
+# a dependency file opened FIRST (nothing of the project loaded yet): its import of its own direct dependency must resolve
+DEP_FIRST = ('build/packages/dep/src/dep_mod.gleam', [((1, 30), 'build/packages/trans/src/trans_mod.gleam', 'a file under build/packages opened first is attributed to the enclosing project')])
+
+
 def native_layout(binary):
     out, alive = lsp_replay.workspace_scenario(binary, FILES, 'src/main.gleam', [p[0] for p in PROBES])
     problems = []
@@ -30,7 +34,13 @@ def native_layout(binary):
     for got, (pos, want, what) in zip(out, PROBES):
         if got != want:
             problems.append('%s: go-to-definition at %s lands on %s, expected %s' % (what, pos, got, want))
-    return problems, out
+    out2, alive2 = lsp_replay.workspace_scenario(binary, FILES, DEP_FIRST[0], [p[0] for p in DEP_FIRST[1]])
+    if not alive2:
+        problems.append('the server died when a dependency file was opened first')
+    for got, (pos, want, what) in zip(out2, DEP_FIRST[1]):
+        if got != want:
+            problems.append('%s: go-to-definition at %s of %s lands on %s, expected %s' % (what, pos, DEP_FIRST[0], got, want))
+    return problems, out + out2
 
 
 def native_names(oracle, samples):
@@ -89,6 +99,12 @@ def main(tier, seed):
         res, complete = explore.explore(projk.visible_factory, (), jobs=1)
         chk.add_run('visible_modules: three packages, six symbolic dependency edges (database answered from that graph)', res, complete, {'packages': 3}, nontrivial_classes=lambda c: c.startswith('visible:'))
         found += [('visible_modules', v) for v in res.violations]
+        # (d) project root discovery: fixed path shapes, WHICH ancestor directories hold a gleam.toml is symbolic
+        for sh in projk.ROOT_SHAPES:
+            res, complete = explore.explore(projk.root_factory, (sh,), jobs=1)
+            chk.add_run('find_gleam_project_parent on /%s with a symbolic set of gleam.toml files in its ancestor directories' % '/'.join(projk.ROOT_SHAPES[sh]), res, complete,
+                        {'shape': sh, 'manifest_bits': len(projk.ROOT_SHAPES[sh]) - 1}, nontrivial_classes=lambda c: c.startswith('root:') and c != 'root:None')
+            found += [('find_gleam_project_parent', v) for v in res.violations]
         # real server on an on-disk workspace
         problems, out = native_layout(lsp_replay.build_binary())
         if found:
@@ -112,10 +128,11 @@ def main(tier, seed):
     chk.assumptions += [
         'kernel claim: (a) Server::lower_vfs assigns every file to the longest package root that is a component-wise prefix of its path, for two roots of <= 2 / <= 3 components and files of <= 3 / <= 4 components over a three-letter alphabet; '
         '(b) ide::module_name names <root>/<dir>/a/b.gleam as a/b for <= 2 / <= 3 directories and stems over [a-c_1], returns None for other extensions and does not panic on dots / backslashes; '
-        '(c) Package::visible_modules = modules of the own package and of its direct dependencies for every dependency relation over three packages',
+        '(c) Package::visible_modules = modules of the own package and of its direct dependencies for every dependency relation over three packages; '
+        '(d) find_gleam_project_parent on 9 path shapes (module in src / test / a sub-directory / elsewhere, manifests, nested projects, files of a dependency under build/packages) for EVERY set of ancestor directories that hold a gleam.toml (Path::is_file answered from symbolic bits), compared with a two-stage reference of the layout rules',
         'std::path is modelled over component lists (strip_prefix, extension, set_extension, components, collect, to_str, starts_with); file names are valid UTF-8 without separators; '
         'the model is compared with the native ide::module_name on the sampled paths of every run',
-        'project discovery (find_gleam_project_parent), reading gleam.toml, walking directories and the build/packages locality flag are file-system I/O and outside the claim; they are exercised only by the on-disk replay',
+        'reading gleam.toml (assemble_graph), walking directories (load_package_files) and the build/packages locality flag are file-system I/O and outside the claim; they are exercised only by the on-disk replay',
         'module_name skips the first component below the root whatever its name: that only src/ and test/ are loaded is a property of load_package_files (I/O), not claimed']
     chk.trusted += ['rustc MIR', 'mirsym interpreter + std::path / HashMap / IndexSet / la_arena models', 'z3']
     chk.level = 'model_checking'
